@@ -38,7 +38,7 @@ def build(C, nf):
         sid, name, size, attrs, payload = s
         sig = C.Signal(name, start_bit=payload >> 1, size=size, is_signed=bool(payload & 1))
         for k, v in attrs:
-            sig.add_attribute("SA%d" % k, v)
+            sig.add_attribute("XA%d" % k, v)
         objs[("s", sid)] = sig
         rev[id(sig)] = sid
         return sig
@@ -46,7 +46,7 @@ def build(C, nf):
     for fid, name, attrs, payload, sigs in nf["frames"]:
         fr = C.Frame(name, arbitration_id=C.ArbitrationId(payload >> 4, False), size=payload & 15)
         for k, v in attrs:
-            fr.add_attribute("FA%d" % k, v)
+            fr.add_attribute("XA%d" % k, v)
         for s in sigs:
             fr.add_signal(mk_signal(s))
         db.add_frame(fr)
@@ -55,16 +55,16 @@ def build(C, nf):
     for e, attrs in nf["ecus"]:
         ecu = C.Ecu("E%d" % e)
         for k, v in attrs:
-            ecu.add_attribute("EA%d" % k, v)
+            ecu.add_attribute("XA%d" % k, v)
         db.add_ecu(ecu)
     for s in nf["free"]:
         db.add_signal(mk_signal(s))
     for k, v in nf["fdefs"]:
-        db.add_frame_defines("FA%d" % k, "INT 0 %d" % v)
+        db.add_frame_defines("XA%d" % k, "INT 0 %d" % v)
     for k, v in nf["edefs"]:
-        db.add_ecu_defines("EA%d" % k, "INT 0 %d" % v)
+        db.add_ecu_defines("XA%d" % k, "INT 0 %d" % v)
     for k, v in nf["sdefs"]:
-        db.add_signal_defines("SA%d" % k, "INT 0 %d" % v)
+        db.add_signal_defines("XA%d" % k, "INT 0 %d" % v)
     return db, objs, rev
 
 
@@ -218,9 +218,9 @@ def apply_impl(C, db, objs, op):
         elif k == "renframe":
             db.rename_frame(op[1], op[2])
         elif k == "delsattrs":
-            db.del_signal_attributes(["SA%d" % a for a in op[1]])
+            db.del_signal_attributes(["XA%d" % a for a in op[1]])
         elif k == "delfattrs":
-            db.del_frame_attributes(["FA%d" % a for a in op[1]])
+            db.del_frame_attributes(["XA%d" % a for a in op[1]])
         else:
             raise ValueError(k)
     except (IndexError, ValueError, KeyError) as e:
@@ -283,16 +283,16 @@ def export_problem(C, formats, nf_after, db):
     want = {}
     for f in nf_after["frames"]:
         for a in f[2]:
-            want[("BO_", "FA%d" % a[0])] = want.get(("BO_", "FA%d" % a[0]), 0) + 1
+            want[("BO_", "XA%d" % a[0])] = want.get(("BO_", "XA%d" % a[0]), 0) + 1
         for s in f[4]:
             for a in s[3]:
-                want[("SG_", "SA%d" % a[0])] = want.get(("SG_", "SA%d" % a[0]), 0) + 1
+                want[("SG_", "XA%d" % a[0])] = want.get(("SG_", "XA%d" % a[0]), 0) + 1
     for s in nf_after["free"]:
         for a in s[3]:
-            want[("SG_", "SA%d" % a[0])] = want.get(("SG_", "SA%d" % a[0]), 0) + 1
+            want[("SG_", "XA%d" % a[0])] = want.get(("SG_", "XA%d" % a[0]), 0) + 1
     for e in nf_after["ecus"]:
         for a in e[1]:
-            want[("BU_", "EA%d" % a[0])] = want.get(("BU_", "EA%d" % a[0]), 0) + 1
+            want[("BU_", "XA%d" % a[0])] = want.get(("BU_", "XA%d" % a[0]), 0) + 1
     for (cat, name), n in sorted(want.items()):
         if not any(l.startswith('BA_DEF_ %s  "%s"' % (cat, name)) or l.startswith('BA_DEF_ %s "%s"' % (cat, name)) for l in lines):
             return "attribute %s in use but no BA_DEF_ %s written" % (name, cat)
